@@ -19,7 +19,7 @@ EVID = os.path.join(ROOT, "evidence")
 NCPU = int(os.environ.get("VERIF_JOBS", str(os.cpu_count() or 4)))
 GUARD = "CHAISCRIPT_VERIF"
 
-UBSAN_OFF = "shift,signed-integer-overflow,float-cast-overflow,float-divide-by-zero,object-size"
+UBSAN_OFF = "shift,signed-integer-overflow,float-cast-overflow,float-divide-by-zero,integer-divide-by-zero,object-size"
 
 FLAVOURS = {
     # compiler, compile flags, link flags
@@ -460,10 +460,10 @@ class Ctx:
         if len(self.samples) < limit:
             self.samples.append(s)
 
-    def violation(self, key, witness):
+    def violation(self, key, witness, n=1):
         """key: '<rule>:<site>' (property id is prefixed automatically)."""
         full = "%s:%s" % (self.prop, key)
-        self.viol_count[full] = self.viol_count.get(full, 0) + 1
+        self.viol_count[full] = self.viol_count.get(full, 0) + n
         kf = self.known.match(self.prop, full)
         if kf is not None:
             self.known_seen.setdefault(full, (kf, witness))
